@@ -35,6 +35,8 @@ func TestMakeReplays(t *testing.T) {
 	write("hazard-huge-escape", "transform", "", mkTCase(0, []byte("x=\"\\u{"+strings.Repeat("0", 10000)+"41}\"+/\\u{"+strings.Repeat("0", 5000)+"41}/u"), nil))
 	write("hazard-json-deep", "transform", "", mkTCase(6, []byte(strings.Repeat("[", 3000)+strings.Repeat("]", 3000)), nil))
 	write("hazard-srcmap-huge-vlq", "srcmap", "", SCase{Loader: "js", Src: []byte("let a = 1\nlet b = 2"), Map: []byte(`{"version":3,"sources":["a.js",null,1],"sourcesContent":[null,3],"names":[1],"mappings":"AAAA,`+strings.Repeat("g", 3000)+`A;+/////D,AAAAg;;;AADDDDDDD"}`), Enc: "base64", Build: true, Opt: sm(2)})
+	files := map[string][]byte{"entry.js": []byte("import 'pkg/sub'"), "node_modules/pkg/package.json": []byte(`{"browser":{"./sub":"pkg/sub"}}`), "node_modules/pkg/sub.js": []byte("module.exports = 1")}
+	write("browser-map-self-reference", "config", "a `browser` map that remaps ./sub to pkg/sub inside pkg: the resolver recurses until the stack overflows (process crash); found by the config sub-check, seed 2", BCase{Entry: "entry.js", Opt: 0, Files: files})
 	write("hazard-pkgjson-exports-empty-array", "config", "", BCase{Entry: "entry.tsx", Opt: 1,
 		Files: mkTree([]byte(`{"imports":{"#int":[],"#int/*":[]}}`), []byte(`{"exports":[],"browser":[],"main":[],"sideEffects":[[]]}`), []byte(`{"extends":"./tsconfig.base.json"}`), []byte(`{"extends":["./tsconfig.json","./missing"],"compilerOptions":{"paths":{"@alias/*":[]}}}`), []byte("export {}"))})
 }
